@@ -17,7 +17,7 @@ def _amount_is_param(name):
     return chk
 
 
-@rule("C01.1", ["C01", "C14", "C10", "C08", "C02"], ["E3", "E4"], "TX segment accounting is conserved on every path",
+@rule("C01.1", ["C01", "C14", "C10", "C08", "C02", "C19"], ["E3", "E4"], "TX segment accounting is conserved on every path",
       "In every method of Segments: a fresh element pushed on `segments` <=> `offset += x` and `len_bytes += x` (x = the element's payload_size source); "
       "an element removed from the back and not pushed back <=> `len_bytes -= payload_size` and `offset -= payload_size`; an element removed from the front "
       "(drain item / pop_front) <=> `len_bytes -= payload_size`, `snd_una += 1` and its payload_size accumulated into the local that feeds `removed_offset +=`; checked per loop iteration and at every return.")
